@@ -1,6 +1,7 @@
 package vm
 
 import (
+	"bytes"
 	"math/big"
 
 	"github.com/pkg/errors"
@@ -109,6 +110,19 @@ func (vm *VM) applyBlock(block *nom.AccountBlock) error {
 		computed := generated.ComputeHash()
 		if computed != block.Hash {
 			return errors.Errorf("auto-received block has different hash expected %v but got %v", computed, generated)
+		}
+		// the hash covers neither the content of the descendant blocks (only their hashes) nor the plasma fields,
+		// so make sure the block is exactly the generated one
+		generatedData, err := generated.Serialize()
+		if err != nil {
+			return err
+		}
+		blockData, err := block.Serialize()
+		if err != nil {
+			return err
+		}
+		if !bytes.Equal(generatedData, blockData) {
+			return errors.Errorf("auto-received block is different than the generated one")
 		}
 		return nil
 	default:
